@@ -2,8 +2,8 @@ SPECIFICATION Spec
 CONSTANTS
   Family = "timing"
   MaxN = 2
-  MaxLen = 4
-  MaxBody = 3
+  MaxLen = 1
+  MaxBody = 1
   Export = TRUE
 INVARIANT Inv_Sums
 INVARIANT Inv_Chain
